@@ -77,12 +77,14 @@ TRAJ = {"A": lambda mk: {"k": "trajectory", "t0": 1, "shape": ["rect", 4.0, 2.0,
         "C": lambda mk: {"k": "trajectory", "t0": 2, "shape": ["circle", 1.0, 0.0, 0.0], "states": [mk(2, -5.0, 0.0, 1.0), mk(3, -9.0, 1.0, 1.3)]}}
 
 
-def obst_start(kind):
+def obst_start(kind, shape=("rect", 4.0, 2.0, 0.0, 0.0, 0.0)):
     mk = ks if kind == "ks" else pm
 
     def start():
-        o = spec.mk_obstacle({"role": "dynamic", "id": 7, "type": "CAR", "shape": ["rect", 4.0, 2.0, 0.0, 0.0, 0.0], "initial_state": spec.init_state(x=1.0, y=0.0, o=0.0, t=0),
-                              "prediction": TRAJ["A"](mk)})
+        pred = TRAJ["A"](mk)
+        pred["shape"] = list(shape)
+        o = spec.mk_obstacle({"role": "dynamic", "id": 7, "type": "CAR", "shape": list(shape), "initial_state": spec.init_state(x=1.0, y=0.0, o=0.0, t=0),
+                              "prediction": pred})
         return o, {"hist": [], "flags": (), "tainted": False}
     return start
 
@@ -243,6 +245,8 @@ def net_enabled(model):
         ops += [["add", i, True], ["add", i, False]]
     for i in NET_START + NET_EXTRA:
         ops += [["remove", i, True], ["remove", i, False]]
+    # several lanelets taken over from another network, some of whose ids may already be in use here (those are rejected, the others are added)
+    ops += [["add_from_network", [5, 1]], ["add_from_network", [1, 8]], ["add_from_network", [5, 8]]]
     return ops
 
 
@@ -269,6 +273,13 @@ def net_step(net, model, op):
             if op[1] in have:
                 net.remove_lanelet(op[1], rtree=op[2])
                 deferred = (not op[2]) or (deferred if not op[2] else False)
+        elif k == "add_from_network":
+            from commonroad.scenario.lanelet import LaneletNetwork
+            other = LaneletNetwork()
+            for i in op[1]:
+                other.add_lanelet(spec.mk_lanelet(netgeo.lanelet_spec(i)))
+            net.add_lanelets_from_network(other)
+            deferred = False
         obs = ("ok", None)
     except Exception as e:
         obs = ("raises:" + type(e).__name__, str(e)[:200])
@@ -497,12 +508,14 @@ def scen_check(sc, model, model2, op, obs, pre):
 SUBJECTS = {
     "obstacle-ks": (obst_start("ks"), obst_ops("ks"), obst_step("ks"), obst_canon, obst_check),
     "obstacle-pm": (obst_start("pm"), obst_ops("pm"), obst_step("pm"), obst_canon, obst_check),
+    # the same subject with a shape whose reference point is not its centre (vehicle referenced at the rear axle)
+    "obstacle-offcentre": (obst_start("ks", ("rect", 4.0, 2.0, 1.25, 0.5, 0.0)), obst_ops("ks"), obst_step("ks"), obst_canon, obst_check),
     "network": (net_start, net_enabled, net_step, net_canon, net_check),
     "traffic-light": (light_start, light_enabled, light_step, light_canon, light_check),
     "scenario": (scen_start, scen_enabled, scen_step, scen_canon, scen_check),
 }
-DEPTH = {"quick": {"obstacle-ks": 3, "obstacle-pm": 3, "network": 3, "traffic-light": 4, "scenario": 3},
-         "thorough": {"obstacle-ks": 4, "obstacle-pm": 4, "network": 4, "traffic-light": 5, "scenario": 4}}
+DEPTH = {"quick": {"obstacle-ks": 3, "obstacle-pm": 3, "obstacle-offcentre": 3, "network": 3, "traffic-light": 4, "scenario": 3},
+         "thorough": {"obstacle-ks": 4, "obstacle-pm": 4, "obstacle-offcentre": 4, "network": 4, "traffic-light": 5, "scenario": 4}}
 
 
 def describe(tier):
